@@ -510,6 +510,9 @@ func ruleProxyHandlerDirect(c *Ctx) {
 							calls++
 						}
 					}
+					if calls == 0 && p2.Exit == "return" {
+						bad = append(bad, fmt.Sprintf("the upstream's Proxy handler is a wrapper (%s) that can answer without invoking the reverse proxy (and so without asking the pool): a state of its own decides instead of the servers' health", funcName(v.Fn)))
+					}
 					if calls > 1 {
 						bad = append(bad, fmt.Sprintf("the upstream's Proxy handler is a wrapper (%s) that invokes the reverse proxy %d times on one path: one client request can reach the origin twice", funcName(v.Fn), calls))
 					}
